@@ -1,6 +1,8 @@
 package harness
 
 import (
+	"encoding/json"
+
 	"verif/engine/vsched"
 )
 
@@ -23,9 +25,10 @@ type Job struct {
 }
 
 type JobResult struct {
-	Job        Job         `json:"job"`
-	Stats      Stats       `json:"stats"`
-	Violations []Violation `json:"violations"`
-	EngineErr  string      `json:"engine_err,omitempty"`
-	Sample     []int       `json:"sample_schedule,omitempty"`
+	Job        Job             `json:"job"`
+	Stats      Stats           `json:"stats"`
+	Violations []Violation     `json:"violations"`
+	EngineErr  string          `json:"engine_err,omitempty"`
+	Sample     []int           `json:"sample_schedule,omitempty"`
+	Extra      json.RawMessage `json:"extra,omitempty"`
 }
